@@ -380,14 +380,15 @@ def oracle(rep: Report, rng, count: int) -> None:
             # amplitudes
             keys = list({"".join(rng.choice("rg") for _ in range(n)) for _ in range(rng.randint(1, 6))})
             amps = {k: g() for k in keys}
-            st, _ = SV._from_state_amplitudes(eigenstates=("r", "g"), n_qudits=n, amplitudes=amps)
+            eig = rng.choice([("r", "g"), ("g", "r")])      # the order of `eigenstates` must not matter: r is always 1
+            st, _ = SV._from_state_amplitudes(eigenstates=eig, n_qudits=n, amplitudes=amps)
             ref = np.zeros(2 ** n, dtype=complex)
             for k, v in amps.items():
                 ref[sum(2 ** (n - 1 - q) for q, ch in enumerate(k) if ch == "r")] = v
             ref = ref / np.linalg.norm(ref)
-            data = dict(kind="amps", n=n, amps={k: [v.real, v.imag] for k, v in amps.items()})
-            chk("_from_state_amplitudes", st.data.numpy(), ref, data)
-            dm, _ = DM._from_state_amplitudes(eigenstates=("r", "g"), n_qudits=n, amplitudes=amps)
+            data = dict(kind="amps", n=n, eig=list(eig), amps={k: [v.real, v.imag] for k, v in amps.items()})
+            chk(f"_from_state_amplitudes(eigenstates={eig})", st.data.numpy(), ref, data)
+            dm, _ = DM._from_state_amplitudes(eigenstates=eig, n_qudits=n, amplitudes=amps)
             chk("DensityMatrix._from_state_amplitudes", dm.data.numpy(), np.outer(ref, ref.conj()), data)
             # vector algebra
             a = torch.tensor([g() for _ in range(2 ** n)], dtype=tio.C128)
@@ -538,13 +539,14 @@ def replay(rep: Report, path: str) -> int:
                 errs["sparse_kron"] = rel(dense, np.kron(a.to_dense().numpy(), b.to_dense().numpy())) if inside else float("inf")
             elif kind == "amps":
                 n, amps = d["n"], {k: complex(*v) for k, v in d["amps"].items()}
-                st, _ = SV._from_state_amplitudes(eigenstates=("r", "g"), n_qudits=n, amplitudes=amps)
+                eig_r = tuple(d.get("eig", ("r", "g")))
+                st, _ = SV._from_state_amplitudes(eigenstates=eig_r, n_qudits=n, amplitudes=amps)
                 ref = np.zeros(2 ** n, dtype=complex)
                 for k, v in amps.items():
                     ref[sum(2 ** (n - 1 - q) for q, ch in enumerate(k) if ch == "r")] = v
                 ref = ref / np.linalg.norm(ref)
                 errs["_from_state_amplitudes"] = rel(st.data.numpy(), ref)
-                dm, _ = DM._from_state_amplitudes(eigenstates=("r", "g"), n_qudits=n, amplitudes=amps)
+                dm, _ = DM._from_state_amplitudes(eigenstates=eig_r, n_qudits=n, amplitudes=amps)
                 errs["DensityMatrix._from_state_amplitudes"] = rel(dm.data.numpy(), np.outer(ref, ref.conj()))
             elif kind == "vec" and "a" in d:
                 a = torch.tensor([complex(*z) for z in d["a"]], dtype=tio.C128)
